@@ -144,6 +144,11 @@ func sigResults(sig *types.Signature) []types.Type {
 // callUnknown: a callee without contract. Everything reachable may have been written; results are arbitrary.
 func (x *Exec) callUnknown(s *State, fr *Frame, key string, args []Value, sig *types.Signature, in ssa.Instruction) []Value {
 	x.havocked[shortFn(key)] = true
+	if len(x.spec.Frame) > 0 {
+		// a callee without contract may write anything reachable, including shared state
+		x.oblige(s, "frame", fmt.Sprintf("frame@%s#%s", shortFn(fnKey(fr.fn)), x.siteOrdinal(fr.fn, in)), TFalse, x.spec.Frame, in.Pos(),
+			"call of "+shortFn(key)+" which has no contract (it may write shared state)")
+	}
 	x.havocAllHeap(s)
 	for _, a := range args {
 		if a.Loc != nil && a.Loc.Cell != nil {
